@@ -195,6 +195,8 @@ def _failing_examples():
 
 def run_shard(spec, ctx):
     _install(ctx)
+    if spec['kind'] == 'suite':
+        return _text.run_repo_suite(ID, ctx)
     if spec['kind'] == 'files':
         it = _text.whole_files(spec, ctx)
     elif spec['kind'] == 'examples':
@@ -223,6 +225,8 @@ def shards(tier, seed):
     s += [{'kind': 'files', 'shard': i, 'nshards': nf, 'file_stride': 16 if tier == 'quick' else 1,
            'budget_s': 60 if tier == 'quick' else 900} for i in range(nf)]
     s += [{'kind': 'examples'}]
+    if tier == 'thorough':
+        s.append({'kind': 'suite'})
     return s
 
 
@@ -234,3 +238,7 @@ def floors(tier):
 def extra_coverage(m, tier):
     fed = m['sets'].get('rules_fed', set())
     return {'registered_rules_never_fed': sorted(set(m['sets'].get('rules_not_fed_in_some_shard', set())) - set(fed))}
+
+
+def install_for_suite(ctx):
+    _install(ctx)
